@@ -189,6 +189,7 @@ class World:
         self.locks = [asyncio.Lock() for _ in range(2)]
         self.queues = [asyncio.Queue() for _ in range(2)]
         self.in_ext = set()
+        self.expect_cancel = set()
         self.explicit_pause = False
         self.cur_class = None
 
@@ -553,8 +554,8 @@ class World:
                 self.expect_next = None   # a later throw supersedes the interrupt
             if task._must_cancel:
                 # only possible for a task blocked on a future that refused cancel()
-                self.problem("task_throw accepted a task with a pending cancellation (_must_cancel)",
-                             f"task {t} blocked={was_blocked}")
+                self.problem("task_throw accepted a %s task with a pending cancellation (_must_cancel)"
+                             % ("blocked" if was_blocked else "runnable"), f"task {t} exc i{e.id}")
                 if not self.throws[-1]["cd"]:
                     self.throws[-1]["superseded"] = "cancel"   # reported above, not twice
             self.tags.add("throw-on-blocked" if was_blocked else
@@ -575,7 +576,24 @@ class World:
         else:
             self.throws.append({"id": e.id, "t": t, "cd": isinstance(e, IntrCancel), "ok": False,
                                 "delivered": 0, "superseded": None})
-            why = "done" if task.done() else ("self" if who == t else "pending-cancel")
+            fw = task._fut_waiter
+            if task.done():
+                why = "done"
+            elif who == t:
+                why = "self"
+            elif task._must_cancel or (fw is not None and fw.cancelled()):
+                why = "pending-cancel"
+                # the cancellation itself must still arrive: the next exception raised in the target is
+                # the CancelledError (unless an earlier CancelledError-derived interrupt is still queued,
+                # which Task.__step lets absorb the request)
+                if not any(th["t"] == t and th["ok"] and th["cd"] and not th["delivered"]
+                           and not th["superseded"] for th in self.throws):
+                    self.expect_cancel.add(t)
+            else:
+                why = "no-reason"
+                self.problem("task_throw / task_interrupt refused a target that is not done, not the caller "
+                             "and has no pending cancellation", f"task {t} cancelling="
+                             f"{getattr(task, 'cancelling', lambda: '?')()}")
             self.tags.add("throw-refused-" + why)
             if pre is not None:
                 post = self._quiet_obs()
@@ -597,9 +615,17 @@ class World:
                     self.tags.add("cancel-merged-into-cd-interrupt")
 
     # ------------------------------------------------------------------ worker bodies
+    def check_expected_cancel(self, wid, code):
+        if wid in self.expect_cancel:
+            self.expect_cancel.discard(wid)
+            if code != "C":
+                self.problem("task_throw refused for a pending cancellation, but the cancellation was lost",
+                             f"task {wid} got {code}")
+
     def deliver(self, wid, e):
         code = self.exc_code(e)
         self.log.append(f"{wid}:{code}")
+        self.check_expected_cancel(wid, code)
         if code.startswith("?"):
             # nothing in a worker raises this by itself: it came out of asynkit's machinery
             self.problem(f"task_throw / task_interrupt machinery raised {type(e).__name__}", repr(e)[:200])
@@ -818,6 +844,7 @@ class World:
         if e is None:
             raise HarnessBug("never-started task finished without exception")
         self.log.append(f"{t}:{self.exc_code(e)}")
+        self.check_expected_cancel(t, self.exc_code(e))
         if isinstance(e, (IntrPlain, IntrCancel)):
             for th in self.throws:
                 if th["id"] == e.id:
